@@ -90,13 +90,18 @@ def fault_injector(kind: str, fault: str, step: int | None, at: float | None, pl
     return inject
 
 
+CONF: list = []          # (callback regime, conformance log, description) of sessions the model covers
+
+
 def sessions(tier: str, seed: int, kinds=vloop.CLIENTS):
     logs, meta = [], []
+    CONF.clear()
     for kind in kinds:
         for refuse in (0, 3):
             base, raw = cf.run(kind, cf.Plan(refuse=refuse))
             logs.append(base)
             meta.append((kind, "none", refuse, "ok", "baseline"))
+            CONF.append(("ok", cf.conformance_log(raw), f"{kind} baseline refuse={refuse}"))
             t_conn = next((e["t"] for e in raw if e["e"] == "Status" and e["s"] == "CONNECTED"), None)
             if t_conn is None:
                 continue
@@ -112,9 +117,11 @@ def sessions(tier: str, seed: int, kinds=vloop.CLIENTS):
                     continue            # no encoder: that client never writes
                 for k in steps:
                     plan = cf.Plan(refuse=refuse)
-                    log, _ = cf.run(kind, plan, fault_injector(kind, fault, k, None, plan))
+                    log, raw2 = cf.run(kind, plan, fault_injector(kind, fault, k, None, plan))
                     logs.append(log)
                     meta.append((kind, fault, refuse, "ok", f"step{k - s_conn:+d}"))
+                    if fault in ("eof", "reset"):
+                        CONF.append(("ok", cf.conformance_log(raw2), f"{kind} {fault} step{k - s_conn:+d} refuse={refuse}"))
                 if fault == "sorry":
                     continue            # the banner is sent instead of traffic, not inside a packet
                 # mid-packet: half a packet, then the fault
@@ -134,9 +141,11 @@ def sessions(tier: str, seed: int, kinds=vloop.CLIENTS):
                 for dt in (0.05, 0.15, 0.25, 0.35, 0.45, 1.0, 2.0):
                     for cb in ("slow", "slowC", "slowD"):
                         plan = cf.Plan(refuse=refuse)
-                        log, _ = cf.run(kind, plan, fault_injector(kind, fault, None, t_conn + dt, plan), status_cb=cb)
+                        log, raw2 = cf.run(kind, plan, fault_injector(kind, fault, None, t_conn + dt, plan), status_cb=cb)
                         logs.append(log)
                         meta.append((kind, fault, refuse, cb, f"+{dt}s"))
+                        if fault in ("eof", "reset"):
+                            CONF.append((cb, cf.conformance_log(raw2), f"{kind} {fault} +{dt}s refuse={refuse} callback={cb}"))
             # two faults in a row (the second on the reconnected link)
             plan = cf.Plan(refuse=refuse)
 
@@ -171,10 +180,36 @@ def judge(chk: Check, wd, logs, meta, prefix: str, tag: str):
     return v
 
 
+def conformance(chk: Check, wd, conf, tag: str):
+    """are the recorded logs behaviours of the implementation-shaped model?  (DRIFT only)"""
+    total = accepted = 0
+    for regime, cfg in (("ok", "none"), ("slow", "slow"), ("slowC", "slowC"), ("slowD", "slowD")):
+        logs = [c for c in conf if c[0] == regime]
+        if not logs:
+            continue
+        inp, outp = wd / f"{tag}-conf-{regime}.json", wd / f"{tag}-conf-{regime}-out.json"
+        inp.write_text(json.dumps([c[1] for c in logs]))
+        r = run_tlc("Trace_ClientModel", f"Trace_ClientModel_{cfg}.cfg", env={"IN_FILE": str(inp), "OUT_FILE": str(outp)},
+                    workers=1, name=f"Trace_ClientModel-{tag}-{regime}", timeout=3000, deadlock=False, heap="3g", dfs=True)
+        chk.gate(not r.violated and outp.exists(), f"Trace_ClientModel failed: {r.error_text(20)}")
+        res = json.loads(outp.read_text())
+        for c, x in zip(logs, res):
+            total += 1
+            if x["reached"] > x["len"]:
+                accepted += 1
+            else:
+                e = c[1][x["reached"] - 1]
+                chk.drift.append(f"{c[2]}: not a behaviour of N2KClient from event {x['reached']} of {x['len']}: "
+                                 f"{e['t']}ms {e['e']} {e['s'] or e['r'] or e['conn'] or e['k'] or ''} [{e['st']}]")
+    chk.add(model_conformance_logs=total, model_conformance_accepted=accepted)
+    return total, accepted
+
+
 def bind(chk: Check, tier: str, seed: int):
     wd = workdir("C13")
     logs, meta = sessions(tier, seed)
     judge(chk, wd, logs, meta, "C13", "c13")
+    conformance(chk, wd, CONF if tier != "selftest" else [], "c13")
     per = {}
     for m in meta:
         per[(m[0], m[1])] = per.get((m[0], m[1]), 0) + 1
